@@ -12,6 +12,7 @@ import importlib
 import json
 import os
 import re
+import subprocess
 import sys
 import time
 import traceback
@@ -338,6 +339,21 @@ def run_property(pid, tier, seed, jobs=16, out=sys.stdout):
             print('mutants: %d as expected, %d not' % (len(killed), len(survived)), file=out)
         except ImportError:
             cov['mutants'] = dict(note='no mutant list for this property')
+    if tier == 'thorough' and contracts and not os.environ.get('VERIF_NO_MODELCHECK'):
+        # differential test of the trusted numpy model against the installed numpy (tools/modelcheck.py): evidence about
+        # the trusted base; a disagreement is an engine defect (exit 3), never a verdict about the repository
+        try:
+            r = subprocess.run([sys.executable, '-W', 'ignore', os.path.join(VERIF, 'tools', 'modelcheck.py'), str(seed)],
+                               capture_output=True, text=True, timeout=600, env=dict(os.environ, VERIF_REPO=REPO))
+            last = (r.stdout.strip().splitlines() or [''])[-1]
+            cov['numpy_model_crosscheck'] = dict(result=last, exit=r.returncode,
+                                                 disagreements=[l for l in r.stdout.splitlines() if l.startswith('DIFF')][:10])
+            print(last, file=out)
+            if r.returncode != 0:
+                print('CHECKER-ERROR the numpy model disagrees with the installed numpy (tools/modelcheck.py)', file=out)
+                rc = 3 if rc != 1 else 1
+        except Exception as e:
+            cov['numpy_model_crosscheck'] = dict(error=str(e)[:200])
     ev = dict(property_id=pid, tier=tier, seed=seed, level=level, coverage=cov,
               assumptions=sorted(assumptions | set(meta.get('assumptions', []))),
               wall_s=round(time.time() - t0, 2), violations=nviol)
@@ -385,6 +401,9 @@ def main():
     if a.what == 'selftest':
         from tools import selftest
         sys.exit(selftest.main(a.arg, a.tier))
+    if a.what == 'modelcheck':
+        from tools import modelcheck
+        sys.exit(modelcheck.main(int(a.arg or seed)))
     if a.what == 'all':
         rc = 0
         for p in PROPS:
